@@ -79,7 +79,7 @@ theorem terminal_complete (s : St) (h : RInv s) (hcap : 1 ≤ s.sigCap)
     (hstuck : ∀ a, step s a = none ∨ envFault a) :
     (∀ i, i < s.k → s.upRecv i = s.sentC ∧ s.clRecv i = s.sentU i ∧ s.upEof i = true ∧ s.upClosed i = true) ∧
     s.main = .returned ∧ (s.downCW = true → s.clEof = true) := by
-  obtain ⟨h1, h2, h3, h4, h5, h6, h7, h8, h9, h10, h11, h12, h13, h14⟩ := h
+  obtain ⟨h1, h2, h3, h4, h5, h6, h7, h8, h9, h10, h11, h12, h13, h14, h15⟩ := h
   have stuck : ∀ a, ¬ envFault a → step s a = none := fun a hn => (hstuck a).resolve_right hn
   -- the pump has finished
   have hpump : s.pump = .done := by
@@ -147,6 +147,85 @@ theorem terminal_complete (s : St) (h : RInv s) (hcap : 1 ≤ s.sigCap)
     · rw [hcerr] at h; cases h
     · rw [huerr i hi] at h; cases h
     · rw [hcw i hi] at h; cases h
+
+/-- **Transports without half-close** (datagram upstreams): the same terminal analysis without assuming `CloseWrite` on
+the upstream side.  When the client has finished and nothing can move, every upstream has received the whole client stream,
+the handler has returned and every upstream connection is closed — the pump closes a connection that cannot be half-closed,
+which ends its copy (bytes such an upstream still had to send may be cut off: no claim about `clRecv`). -/
+theorem terminal_returns_without_halfclose (s : St) (h : RInv s) (hcap : 1 ≤ s.sigCap)
+    (hcerr : s.cerr = false) (huerr : ∀ i, i < s.k → s.uerr i = false)
+    (hcfin : s.cfin = true) (hufin : ∀ i, i < s.k → s.upCW i = true → s.ufin i = true)
+    (hstuck : ∀ a, step s a = none ∨ envFault a) :
+    (∀ i, i < s.k → s.upRecv i = s.sentC ∧ s.upEof i = true ∧ s.upClosed i = true) ∧ s.main = .returned := by
+  obtain ⟨h1, h2, h3, h4, h5, h6, h7, h8, h9, h10, h11, h12, h13, h14, h15⟩ := h
+  have stuck : ∀ a, ¬ envFault a → step s a = none := fun a hn => (hstuck a).resolve_right hn
+  have hpump : s.pump = .done := by
+    cases hp : s.pump with
+    | done => rfl
+    | reading =>
+      cases hc : s.cin with
+      | cons c cs => have := stuck .pumpRead (by simp [envFault]); simp [step, hc, hp, hcerr] at this
+      | nil => have := stuck .pumpEOF (by simp [envFault]); simp [step, hc, hp, hcerr, hcfin] at this
+    | signalling =>
+      have hs0 : s.sig = 0 := by
+        have := h13.1; have h' := h13.2
+        cases hs : s.sig with
+        | zero => rfl
+        | succ n => have : s.sig = 1 := by omega
+                    have := (h' this).1; rw [hp] at this; rcases this with h | h <;> cases h
+      have := stuck .pumpSignal (by simp [envFault]); simp [step, hp, hs0] at this; omega
+    | closing => have := stuck .pumpClose (by simp [envFault]); simp [step, hp] at this
+  have heof := h6 hpump
+  have hnofault : ¬ ∃ i, i < s.k ∧ s.uerr i = true := by
+    rintro ⟨i, hi, he⟩; rw [huerr i hi] at he; cases he
+  have hcin : s.cin = [] := by
+    rcases h4 (by rw [hpump]; decide) with h | h | h
+    · exact h.1
+    · rw [hcerr] at h; cases h
+    · exact absurd h hnofault
+  have hcopies : ∀ i, i < s.k → s.copyDone i = true := by
+    intro i hi
+    cases hcd : s.copyDone i with
+    | true => rfl
+    | false =>
+      cases hc : s.upClosed i with
+      | true => have := stuck (.copyErr i) (by simp [envFault]); simp [step, hi, hcd, hc] at this
+      | false =>
+        -- not closed by the pump although the pump is done: the transport offers half-close
+        have hcw : s.upCW i = true := by
+          cases hw : s.upCW i with
+          | true => rfl
+          | false =>
+            -- pumpClose set upClosed for every transport without half-close; recover it from the stuck state
+            exfalso
+            have := stuck (.copyErr i) (by simp [envFault])
+            -- copyErr is not enabled only because upClosed is false; but a stuck copy of an unclosed connection must be
+            -- waiting for data the upstream will not send: excluded by `upend` / `ufin` below
+            cases hu : s.uin i with
+            | cons c cs => have := stuck (.copyRead i) (by simp [envFault]); simp [step, hu, hi, hcd, hcerr, huerr i hi, hc] at this
+            | nil =>
+              cases hue : s.upend i with
+              | cons c cs => have := stuck (.upRespond i) (by simp [envFault]); simp [step, hi, heof i, hue, huerr i hi] at this
+              | nil => have := h15 hpump i hw; rw [hc] at this; cases this
+        cases hu : s.uin i with
+        | cons c cs => have := stuck (.copyRead i) (by simp [envFault]); simp [step, hu, hi, hcd, hcerr, huerr i hi, hc] at this
+        | nil =>
+          cases hue : s.upend i with
+          | cons c cs => have := stuck (.upRespond i) (by simp [envFault]); simp [step, hi, heof i, hue, huerr i hi] at this
+          | nil => have := stuck (.copyEOF i) (by simp [envFault]); simp [step, hu, hi, hcd, hue, hufin i hi hcw, huerr i hi, hc] at this
+  have hmain : s.main = .returned := by
+    cases hm : s.main with
+    | returned => rfl
+    | waitCopies =>
+      have := stuck .mainWait (by simp [envFault])
+      have hall : allBelow s.k s.copyDone = true := (allBelow_iff _ _).mpr hcopies
+      simp [step, hm, hall] at this
+    | afterWait => have := stuck .mainCW (by simp [envFault]); simp [step, hm] at this
+    | waitSignal =>
+      have hs1 : s.sig = 1 := h14 (Or.inr hpump) (by rw [hm]; decide)
+      have := stuck .mainRecv (by simp [envFault]); simp [step, hm, hs1] at this
+  refine ⟨fun i hi => ⟨?_, heof i, (h11 hmain).1 i⟩, hmain⟩
+  have := h1 i (huerr i hi); simpa [hcin] using this
 
 /-- the same for every reachable state of the relay as the current source configures it -/
 theorem terminal_complete_reachable (k : Nat) (downCW : Bool) (upCW : Nat → Bool) (pre : Bytes) (cs : List Bytes)
